@@ -290,6 +290,9 @@ class BaseInterpolatablePreProcessor:
             _GlyphSet.from_layer(ufo, layerName, copy=not inplace)
             for ufo, layerName in zip_strict(ufos, layerNames)
         ]
+        # make the instantiator work on these glyph sets from the start: until the first
+        # update it still points at the source layers, which filters must not modify
+        self._update_instantiator()
         if skipExportGlyphs:
             from ufo2ft.filters.skipExportGlyphs import SkipExportGlyphsIFilter
 
